@@ -241,4 +241,6 @@ MUTANTS = [
  dict(id="C19", name="apropos_first_prefix_wins", edits=[(PC, '    for(const Port &port: ports)\n        if(*path && rtosc_match_path(port.name, path, NULL))\n            return &port;\n    for(const Port &port: ports)\n        if(*path && strstr(port.name, path)==port.name)\n            return &port;\n', '    for(const Port &port: ports)\n        if(*path && (strstr(port.name, path)==port.name ||\n                    rtosc_match_path(port.name, path, NULL)))\n            return &port;\n')]),
  dict(id="C20", name="apropos_first_prefix_wins", edits=[(PC, '    for(const Port &port: ports)\n        if(*path && rtosc_match_path(port.name, path, NULL))\n            return &port;\n    for(const Port &port: ports)\n        if(*path && strstr(port.name, path)==port.name)\n            return &port;\n', '    for(const Port &port: ports)\n        if(*path && (strstr(port.name, path)==port.name ||\n                    rtosc_match_path(port.name, path, NULL)))\n            return &port;\n')]),
  dict(id="C12", name="apropos_first_prefix_wins", edits=[(PC, '    for(const Port &port: ports)\n        if(*path && rtosc_match_path(port.name, path, NULL))\n            return &port;\n    for(const Port &port: ports)\n        if(*path && strstr(port.name, path)==port.name)\n            return &port;\n', '    for(const Port &port: ports)\n        if(*path && (strstr(port.name, path)==port.name ||\n                    rtosc_match_path(port.name, path, NULL)))\n            return &port;\n')]),
+ dict(id="C13", name="depends_list_empty_entry_scanned", edits=[(SF, "                    if(!*enabled_by) // rDepends() ends its list with a ','\n                        break;\n", "")]),
+ dict(id="C13", name="self_enabled_by_ignored", edits=[(SF, "        if(!is_leaf_level && port && port->ports)\n", "        if(false && port && port->ports)\n")]),
 ]
